@@ -6,5 +6,5 @@ From VModel Require Import ToyHash Coin.
 Extraction Language OCaml.
 Separate Extraction
   toy_coin_new toy_coin_step toy_coin_run toy_grind toy_dbytes
-  wide_coin_new wide_step wide_run wide_dbytes
+  wide_coin_new wide_step wide_run wide_grind wide_dbytes
   fk_f64 fk_f62 fk_f128 from_random_bytes is_pow2.
